@@ -580,8 +580,10 @@ func c11stampede(env *core.Env, cs c11case, idx int, res *core.CaseResult) {
 	}
 	k := 3 + cs.Rep%4
 	bad := ""
-	hung, confirmed := withWatchdog(func() {
+	var roundsDone int64
+	hung, confirmed := hammerWatch(func() {
 		for i := 0; i < rounds && bad == ""; i++ {
+			atomic.AddInt64(&roundsDone, 1)
 			name := fmt.Sprintf("d/n%03d", i)
 			var ready, goFlag int32
 			outs := make([][]byte, k)
@@ -593,6 +595,7 @@ func c11stampede(env *core.Env, cs c11case, idx int, res *core.CaseResult) {
 					defer wg.Done()
 					atomic.AddInt32(&ready, 1)
 					for atomic.LoadInt32(&goFlag) == 0 {
+						runtime.Gosched() // (spinning without yielding starves the releasing goroutine when the machine is oversubscribed)
 					}
 					outs[g], errs[g] = readAll(w.cache, name)
 				}(g)
@@ -608,7 +611,7 @@ func c11stampede(env *core.Env, cs c11case, idx int, res *core.CaseResult) {
 				}
 			}
 		}
-	})
+	}, &roundsDone)
 	wit := map[string]any{"case": cs, "openers": k, "rounds": rounds}
 	switch {
 	case hung && confirmed:
